@@ -647,6 +647,33 @@ func (w *World) Subarray(o *TypedArray, args []Value) Value {
 	return w.speciesCreate(o, []Value{o.Buf, float64(bo), float64(newLen)})
 }
 
+// ToLocaleStringHooked: %TypedArray%.prototype.toLocaleString (23.2.3.31, the algorithm of Array.prototype.toLocaleString) while the
+// element type's toLocaleString method is replaced by a strict function that logs ("l<id>", this), runs effs on call number `at`
+// (0-based) and returns "e<call number>". Elements read after a detach are undefined and contribute the empty string.
+func (w *World) ToLocaleStringHooked(o *TypedArray, id, at int, effs []Effect) Value {
+	w.validate(o)
+	n := o.Length
+	var b strings.Builder
+	calls := 0
+	for k := 0; k < n; k++ {
+		if k > 0 {
+			b.WriteByte(',')
+		}
+		el := w.get(o, k)
+		if IsUndef(el) {
+			continue
+		}
+		i := calls
+		calls++
+		w.log("l"+itoa(id), el)
+		if i == at {
+			w.runEffects(effs)
+		}
+		b.WriteString("e" + itoa(i))
+	}
+	return b.String()
+}
+
 // Iterate models CreateArrayIterator over a typed array: kind "keys" | "values" | "entries"; effects run before
 // step number `at`; at most limit steps. Returns the list of produced values followed by "done" when exhausted.
 // again: once the iterator is exhausted run effs once more and call next() again (an exhausted iterator stays done and
